@@ -5,6 +5,11 @@ mod sx;
 mod c31;
 mod alpha;
 mod c08;
+mod gram;
+mod c11;
+mod c12;
+mod rx;
+mod c15;
 
 pub struct Args {
     pub cmd: String,
@@ -47,6 +52,9 @@ fn main() {
     match a.cmd.as_str() {
         "c31" => c31::run(&a),
         "c08" => c08::run(&a),
+        "c11" => c11::run(&a),
+        "c12" => c12::run(&a),
+        "c15" => c15::run(&a),
         other => {
             eprintln!("unknown subcommand {other}");
             std::process::exit(2)
